@@ -62,6 +62,11 @@ Clauses(S, rs) ==
                           \A q \in DOMAIN rs[k].simp : Close(rs[k].simp[q], rs[1].simp[q])>>,
      <<"katz_centrality", \A k \in DOMAIN rs : SameVec(rs[k].katz, rs[1].katz)
                                                  /\ (rs[k].katz = <<>> \/ AllNodes(rs[k].katz, S))>>,
+     <<"stat_summaries", \A k \in DOMAIN rs : Len(rs[k].summ) = Len(rs[1].summ)
+                                                 /\ \A q \in DOMAIN rs[k].summ : Close(rs[k].summ[q], rs[1].summ[q])>>,
+     <<"normalized_hypergraph_laplacian.weighted", \A k \in DOMAIN rs : Len(rs[k].nlapw) = Len(rs[1].nlapw) /\
+          \A q \in DOMAIN rs[k].nlapw : rs[k].nlapw[q][1] = rs[1].nlapw[q][1] /\ rs[k].nlapw[q][2] = rs[1].nlapw[q][2]
+                                         /\ Close(rs[k].nlapw[q][3], rs[1].nlapw[q][3])>>,
      <<"degree_assortativity", \A k \in DOMAIN rs : Close(rs[k].assort, rs[1].assort)>>,
      <<"dynamical_assortativity", \A k \in DOMAIN rs : Close(rs[k].dassort, rs[1].dassort)>> >>
 
